@@ -244,14 +244,21 @@ def build_dual(rng):
     alpha = gen_alpha(rng, m, n, nonneg)
     X, Xdesc = make_domain(rng, n, kind)
     vv = cl.Variable(shape=(m,), name='v')
-    vmode = rng.choice(['var', 'var', 'expr'])
+    vmode = rng.choice(['var', 'var', 'expr', 'affine', 'affine'])
+    M, off = np.eye(m), np.zeros(m)
     if vmode == 'var':
         v = vv
-    else:
-        M = np.eye(m)
+    elif vmode == 'expr':
         if m > 1:
             M[0, 1] = 1.0
         v = M @ vv
+    else:
+        # general affine image: non-unit coefficients and constant terms (as in v_h = c_h @ v of the constrained dual relaxations)
+        M = np.diag([float(rng.choice([0.5, 2.0, 1.0, -1.0, 4.0])) for _ in range(m)])
+        if m > 1 and rng.random() < 0.5:
+            M[m - 1, 0] = float(rng.choice([1.0, -0.5]))
+        off = np.array([float(rng.choice([0.0, 1.0, -0.5, 2.0])) for _ in range(m)])
+        v = M @ vv + off
     with_c = rng.random() < 0.5
     cv = cl.Variable(shape=(2,), name='cvar')
     cvals = gen_c(rng, m, [cv[0], cv[1]]) if with_c else None
@@ -294,7 +301,7 @@ def build_dual(rng):
     cin = cq((Nat(n), Nat(con._lifted_n), alpha, vcells, ccells, Xdesc, covs, ids, bool(settings['compact_dual']), dummy))
     ncones = sum(1 for i in ech.U_I if np.any(ech.covers[i])) if m > 1 else 0
     return {'con': con, 'cin': cin, 'cout': cq(blocks), 'n': n, 'm': m, 'alpha': alpha, 'alpha_np': alpha_np, 'X': X, 'kind': kind, 'settings': settings,
-            'cover_mode': cover_mode, 'v': vv, 'vexpr': v, 'ncones': ncones, 'with_c': with_c,
+            'cover_mode': cover_mode, 'v': vv, 'vexpr': v, 'vmat': M, 'voff': off, 'ncones': ncones, 'with_c': with_c,
             'json': {'n': n, 'm': m, 'alpha': [[str(a) for a in r] for r in alpha], 'domain': kind, 'v': vmode, 'with_c': with_c,
                      'settings': {k: bool(v_) for k, v_ in settings.items()}, 'covers': cover_mode}}
 
